@@ -1602,9 +1602,14 @@ func (idx *MergeSetIndex) ClearCache() error {
 		return nil
 	}
 	idx.logger.Info("ClearCache", zap.String("path", idx.path))
+	// Items added since the last periodic flush are not visible to a TableSearch yet: the series-key cache is the only
+	// way getSeriesIdBySeriesKey finds them. Make them searchable before the cache goes, otherwise the next write of
+	// such a series creates a second tsid for it. The second flush covers items added while the caches were reset.
+	idx.tb.DebugFlush()
 	if err := idx.cache.reset(); err != nil {
 		return err
 	}
+	idx.tb.DebugFlush()
 
 	return nil
 }
